@@ -104,6 +104,32 @@ def _less_edges(b, elem_pred, target_pred, elem_op=None, wrap=None):
             continue
         if (c.declared_name or "").endswith("partial_cmp"):
             continue            # Option<Ordering>: not used by the repository's searches; left undecided (fails closed below)
+        # `cmp(..) == Ordering::Less`, `cmp(..).is_lt()`, `!= Less`, `is_ge()` ... : a bool test of the Ordering
+        want = "Less" if less_val == 255 else "Greater"
+        for c2 in b.calls():
+            if b.is_cleanup(c2.bb) or not c2.args:
+                continue
+            nm2, dn2 = (c2.name or ""), (c2.declared_name or "")
+            if c.dest["l"] not in roots(b, c2.args[0]) and not (len(c2.args) > 1 and c.dest["l"] in roots(b, c2.args[1])):
+                continue
+            pos = None      # True: the call's true edge means `strictly less`; False: its true edge means `not less`
+            if nm2.endswith(("Ordering::is_lt", "Ordering::is_gt", "Ordering::is_ge", "Ordering::is_le")):
+                m = nm2.rsplit("::", 1)[1]
+                if less_val == 255:
+                    pos = {"is_lt": True, "is_ge": False}.get(m)
+                else:
+                    pos = {"is_gt": True, "is_le": False}.get(m)
+            elif len(c2.args) == 2 and ("PartialEq" in dn2 or "PartialEq" in nm2) and nm2.rsplit("::", 1)[-1] in ("eq", "ne"):
+                other = c2.args[1] if c.dest["l"] in roots(b, c2.args[0]) else c2.args[0]
+                variants = {(o.name or "").rsplit("::", 1)[-1] for o in origins(b, other) if o.kind == "agg"}
+                if variants == {want}:
+                    pos = nm2.endswith("::eq")
+            if pos is None:
+                continue
+            for t in bool_tests(b, c2.dest["l"]):
+                tr, fl = [(t.bb, x) for x in t.ok], [(t.bb, x) for x in t.err]
+                less += tr if pos else fl
+                notless += fl if pos else tr
         for bb in range(b.n):
             for st in b.blocks[bb]["stmts"]:
                 if st["k"] == "assign" and st["rv"]["k"] == "discr" and not st["pl"]["p"] and c.dest["l"] in roots(b, {"k": "copy", "pl": st["rv"]["pl"]}):
@@ -458,9 +484,11 @@ def blk1_block_cursor(P, R, L, rule="BLK-1"):
                 for t in bool_tests(b, c.dest["l"]):
                     valid_e += [(t.bb, x) for x in t.ok]
         idx = [c for c in b.calls() if not b.is_cleanup(c.bb) and ("ops::Index" in (c.declared_name or "") or (c.name or "").endswith("::index"))]
-        ok = bool(idx) and all(b.must_pass(c.bb, through_edges=valid_e) for c in idx) and \
-            all(len(c.args) >= 2 and any(F in o.path for o in origins(b, c.args[1])) for c in idx)
-        R.check(rule, BLOCK_ITER + "current|reads-the-cursor-entry", ok, where(b), "current() reads entries[current_index], behind is_valid()", "index sites %d" % len(idx))
+        # `entries.get(current_index)` is the checked form of the same read: out of range is None by construction
+        got_ = [c for c in b.calls() if not b.is_cleanup(c.bb) and (c.name or "").rsplit("::", 1)[-1] == "get" and ("slice" in (c.name or "") or "Vec" in (c.name or "")) and len(c.args) >= 2]
+        ok = bool(idx or got_) and all(b.must_pass(c.bb, through_edges=valid_e) for c in idx) and \
+            all(len(c.args) >= 2 and any(F in o.path for o in origins(b, c.args[1])) for c in idx + got_)
+        R.check(rule, BLOCK_ITER + "current|reads-the-cursor-entry", ok, where(b), "current() reads entries[current_index] behind is_valid(), or entries.get(current_index)", "index sites %d, checked get sites %d" % (len(idx), len(got_)))
     else:
         R.missing_anchor(rule, BLOCK_ITER + "current")
     R.floor(rule, "block iterator methods examined", got, 6)
@@ -553,7 +581,13 @@ def mrg1_merge_selection(P, R, L, rule="MRG-1"):
         # the walk: iter() over self.iterators, possibly rev(), enumerate(); nothing that leaves children out
         names = [strip_generics(c.name or "") for c in b.calls() if not b.is_cleanup(c.bb)]
         partial = [x for x in names if x.rsplit("::", 1)[-1] in ("skip", "take", "filter", "step_by", "skip_while", "take_while")]
-        reversed_walk = any(x.endswith("::rev") for x in names)
+        # `.iter().rev().enumerate()` numbers the children from the far end (the index has to be mapped back);
+        # `.iter().enumerate().rev()` keeps their own indices
+        reversed_walk = False
+        for c in b.calls():
+            if not b.is_cleanup(c.bb) and strip_generics(c.name or "").endswith("::enumerate") and c.args:
+                if any(o.kind == "call" and (o.name or "").endswith("::rev") for o in origins(b, c.args[0])):
+                    reversed_walk = True
         idx_ok = True
         for d in repl:
             op0 = d[3]["rv"]["ops"][0]
@@ -771,7 +805,8 @@ def lst1_link_repairs(P, R, L, rule="LST-1"):
     if rm is not None:
         R.analysed(rm)
         S = _link_stores(rm)
-        is_prev_node = lambda t: ("call", "Weak::upgrade") in t
+        # the predecessor is reached through the node's `prev` link (a Weak that has to be upgraded: `Weak::upgrade(w)`, `and_then(Weak::upgrade)`)
+        is_prev_node = lambda t: ("call", "Weak::upgrade") in t or (("via", ("field", "prev")) in t and any(x[0] == "call" for x in t))
         is_next_node = lambda t: ("field", "next") in t and ("param", 2) in t and not is_prev_node(t)
         from_target = lambda t, f: (("field", f) in t or ("via", ("field", f)) in t) and ("param", 2) in t
         # None edges of the two Options the repairs branch on
@@ -787,7 +822,7 @@ def lst1_link_repairs(P, R, L, rule="LST-1"):
                                 if t0 is not None and t0 != switch_target(rm.term(sb), 1):
                                     es.append((sb, t0))
             return es
-        no_prev = none_edges(lambda t: is_prev_node(t) or (("field", "prev") in t and ("param", 2) in t))
+        no_prev = none_edges(lambda t: is_prev_node(t) or (("field", "prev") in t and ("param", 2) in t) or ("via", ("field", "prev")) in t)
         no_next = none_edges(lambda t: ("field", "next") in t and ("param", 2) in t and not is_prev_node(t))
         need = [
             ("predecessor.next = node.next", [s for s in S if s[0] == "next" and is_prev_node(s[1]) and from_target(s[2], "next")], None),
@@ -937,16 +972,14 @@ def fs3_memory_rename_and_remove(P, R, L, rule="FS-3"):
         n += 1
         rem = [c for c in b.calls() if not b.is_cleanup(c.bb) and (c.name or "").endswith("HashMap::remove") and len(c.args) >= 2]
         by_src = [c for c in rem if _from_param(b, c.args[1], 2)]
+        from ..rules import option_tests
         some_e, none_e = [], []
         for c in by_src:
-            for bb in range(b.n):
-                for st in b.blocks[bb]["stmts"]:
-                    if st["k"] == "assign" and st["rv"]["k"] == "discr" and not st["pl"]["p"] and st["rv"]["pl"]["l"] == c.dest["l"] and not b.is_cleanup(bb):
-                        for sb in _switches_on_local(b, st["pl"]["l"]):
-                            t0, t1 = switch_target(b.term(sb), 0), switch_target(b.term(sb), 1)
-                            if t0 != t1:
-                                none_e.append((sb, t0))
-                                some_e.append((sb, t1))
+            for t in option_tests(b, c.dest["l"]):
+                if b.is_cleanup(t.bb) or set(t.ok) == set(t.err):
+                    continue
+                some_e += t.ok_edges()
+                none_e += t.err_edges()
         oks = [bb for bb in range(b.n) if not b.is_cleanup(bb) for st in b.blocks[bb]["stmts"]
                if st["k"] == "assign" and st["pl"]["l"] == 0 and _eff_rv(b, st["rv"]).get("variant") == "Ok"]
         ok_only_when_found = bool(by_src) and bool(oks) and bool(some_e) and all(b.must_pass(x, through_edges=some_e) for x in oks)
